@@ -41,4 +41,38 @@ theorem add_hourlyIn (acc : Val) (x : Series) (u : Efp.Unit) (hu : u.scale ≠ 0
     · simp only [Val.totalPhys, HQ.totalPhys]
       rw [Series.total_add a x ha hx.nodup]; ring
 
+
+theorem physAt_empty (t : Int) : Val.physAt .empty t = 0 := rfl
+theorem totalPhys_empty : Val.totalPhys .empty = 0 := rfl
+
+/-- `acc + x` where `x` is Empty or hourly in the accumulator's unit -/
+theorem add_hourlyIn' (acc x : Val) (u : Efp.Unit) (hu : u.scale ≠ 0)
+    (hacc : acc.HourlyIn u) (hx : x.HourlyIn u) :
+    ∃ v, acc.add x = .ok v ∧ v.HourlyIn u ∧
+      (∀ t, v.physAt t = acc.physAt t + x.physAt t) ∧
+      v.totalPhys = acc.totalPhys + x.totalPhys := by
+  rcases hx with rfl | ⟨b, rfl, hb⟩
+  · rcases hacc with rfl | ⟨a, rfl, ha⟩
+    · exact ⟨.empty, rfl, Or.inl rfl, by intro t; simp [Val.physAt], by simp [Val.totalPhys]⟩
+    · exact ⟨_, rfl, Or.inr ⟨a, rfl, ha⟩, by intro t; simp [Val.physAt], by simp [Val.totalPhys]⟩
+  · obtain ⟨v, h, hv, _, hp, ht⟩ := add_hourlyIn acc b u hu hacc hb
+    exact ⟨v, h, hv, by intro t; rw [hp t]; simp [Val.physAt, HQ.phys], by rw [ht]; simp [Val.totalPhys, HQ.totalPhys]⟩
+
+/-- `sum(values, start=acc)`: hour by hour the result is the sum of the parts -/
+theorem sumVals_spec (u : Efp.Unit) (hu : u.scale ≠ 0) (vs : List Val) (acc : Val)
+    (hacc : acc.HourlyIn u) (hvs : ∀ v ∈ vs, v.HourlyIn u) :
+    ∃ r, sumVals acc vs = .ok r ∧ r.HourlyIn u ∧
+      (∀ t, r.physAt t = acc.physAt t + (vs.map (fun v => v.physAt t)).sum) ∧
+      r.totalPhys = acc.totalPhys + (vs.map Val.totalPhys).sum := by
+  induction vs generalizing acc with
+  | nil => exact ⟨acc, rfl, hacc, by simp, by simp⟩
+  | cons x xs ih =>
+    obtain ⟨v1, h1, hv1, hp1, ht1⟩ := add_hourlyIn' acc x u hu hacc (hvs x (by simp))
+    obtain ⟨r, h2, hr, hp, ht⟩ := ih v1 hv1 (fun v hv => hvs v (by simp [hv]))
+    refine ⟨r, ?_, hr, ?_, ?_⟩
+    · simp only [sumVals, List.foldlM_cons, bind, Except.bind] at h2 ⊢
+      rw [h1]; exact h2
+    · intro t; rw [hp t, hp1 t]; simp only [List.map_cons, List.sum_cons]; ring
+    · rw [ht, ht1]; simp only [List.map_cons, List.sum_cons]; ring
+
 end Efp
